@@ -1,6 +1,7 @@
 package main
 
 import (
+	"os"
 	"errors"
 	"fmt"
 	"strings"
@@ -91,6 +92,46 @@ func runC10(cx *ctx) {
 			}
 		}
 	}
+	// (b2) the same through age.Decrypt on a complete, validly MACed file: a passphrase stanza that really wraps the
+	// file key, with companion stanzas of every kind of type (grease-x, x-grease, grease, random) around it
+	for n := 2; n <= 4; n++ {
+		for pos := 0; pos < n; pos++ {
+			for rep := 0; rep < cx.n(6, 40); rep++ {
+				n, pos := n, pos
+				rr := r.Fork()
+				cx.ru.Do(func() *h.Case {
+					p := newScrypt(rr, 1+rr.Intn(3), 22)
+					w := &wrapperRecipient{inner: plainRecipient{p.rec}}
+					for i := 0; i < n; i++ {
+						if i < pos {
+							w.before = append(w.before, greaseStanza(rr))
+						} else if i > pos {
+							w.after = append(w.after, greaseStanza(rr))
+						}
+					}
+					pt := rr.Bytes(1 + rr.Intn(40))
+					file, err, _ := realEncryptFile(rr.Bytes(200), []age.Recipient{w}, [][]byte{pt}, false)
+					if err != nil {
+						return &h.Case{Kind: "file-mixed", Impl: "encrypt-failed", NonTrivial: false, Note: err.Error()}
+					}
+					return fdecCase("file-mixed", file, []age.Identity{p.id}, []string{p.idD}, fmt.Sprintf("valid file: passphrase stanza at %d of %d, companions of assorted types", pos, n),
+						func(out []byte, class string, consulted int) string {
+							if strings.HasPrefix(class, "ok") || len(out) > 0 {
+								return "a passphrase identity opened a file whose header has other stanzas next to the passphrase stanza"
+							}
+							if strings.HasPrefix(class, "err nomatch") {
+								return "a header mixing a passphrase stanza with others is a plain no-match instead of an error: " + class
+							}
+							return ""
+						})
+				})
+			}
+		}
+	}
+	// (b3) the command line tool's own passphrase identity, through the real binary
+	if os.Getenv("VERIF_C10_CLI") != "0" && strings.HasPrefix(cx.ask("clilazy none 22 -"), "incorrect") {
+		c10CliCases(cx)
+	}
 	// (c) work-factor strings
 	special := []string{"0", "00", "01", "010", "+5", "-5", "+0", "0x10", "1e1", " 5", "5 ", "", "٥", "５", "2147483648", "9223372036854775807",
 		"9223372036854775808", "18446744073709551616", "1234567890123456789012345678901234567890", "5\x00", "5.0", "1_0"}
@@ -162,3 +203,8 @@ func scryptUnwrapCase(kind string, p *party, stanzas []*age.Stanza, note string,
 	return &h.Case{Kind: kind, Line: fmt.Sprintf("unwrap1 %s %s", p.idD, strings.Join(ss, ";")), Impl: impl, Oracle: oracle,
 		NonTrivial: true, Canon: canonUnwrap, Note: note}
 }
+
+// plainRecipient hides WrapWithLabels (so that Encrypt does not apply the passphrase recipient's own label rule)
+type plainRecipient struct{ r age.Recipient }
+
+func (p plainRecipient) Wrap(fileKey []byte) ([]*age.Stanza, error) { return p.r.Wrap(fileKey) }
